@@ -8,7 +8,7 @@ Local Open Scope nat_scope.
 Arguments ProofsB.feedx : simpl never.
 Arguments ProofsB.papp : simpl never.
 
-Lemma one_msg_len4 r l : one_msg r l <> NeedMore -> 4 <= length l.
+Lemma one_msg_len4 pol r l : one_msg pol r l <> NeedMore -> 4 <= length l.
 Proof.
   unfold one_msg. destruct (length l <? 4) eqn:E; [congruence|]. intros _. apply Nat.ltb_ge in E. exact E.
 Qed.
@@ -17,15 +17,16 @@ Section MetaTotal.
 Variable HS : Type.
 Variable handle : HS -> msg -> HS * verdict.
 Variable rl : role.
+Variable pol : policy.
 Variable budget : nat -> nat.
 
-Notation feedx := (feedx HS handle rl).
-Notation feeds := (feeds HS handle rl).
-Notation ev_meta := (ev_meta HS handle rl budget).
-Notation drain_meta := (drain_meta HS handle rl budget).
-Notation run_segs_meta := (run_segs_meta HS handle rl budget).
+Notation feedx := (feedx HS handle rl pol).
+Notation feeds := (feeds HS handle rl pol).
+Notation ev_meta := (ev_meta HS handle rl pol budget).
+Notation drain_meta := (drain_meta HS handle rl pol budget).
+Notation run_segs_meta := (run_segs_meta HS handle rl pol budget).
 Notation mst := (mst HS).
-Notation good := (good HS handle rl).
+Notation good := (good HS handle rl pol).
 
 Lemma feeds_len : forall f h m l h1 m1 b1 es1,
   feeds f h m l = PRes h1 m1 b1 es1 ->
@@ -33,13 +34,13 @@ Lemma feeds_len : forall f h m l h1 m1 b1 es1,
 Proof.
   induction f as [|f IH]; intros h m l h1 m1 b1 es1 H; [discriminate|].
   cbn [Model.feeds] in H. destruct m as [|k lft|].
-  - destruct (one_msg rl l) eqn:E; try discriminate.
+  - destruct (one_msg pol rl l) eqn:E; try discriminate.
     + inversion H; subst. split; [lia|]. intros _ X. congruence.
-    + assert (4 <= length l) by (apply (one_msg_len4 rl); congruence).
+    + assert (4 <= length l) by (apply (one_msg_len4 pol rl); congruence).
       inversion H; subst. cbn [length]. split; lia.
-    + assert (4 <= length l) by (apply (one_msg_len4 rl); congruence).
+    + assert (4 <= length l) by (apply (one_msg_len4 pol rl); congruence).
       inversion H; subst. cbn [length]. split; lia.
-    + destruct (one_msg_got_len _ _ _ _ E) as [[L1 L2] _].
+    + destruct (one_msg_got_len _ _ _ _ _ E) as [[L1 L2] _].
       assert (LS : length (skipn n l) + 4 <= length l) by (rewrite skipn_length; lia).
       destruct (handle h m) as [h' v]. destruct v.
       * destruct (after m) as [[k len]|].
@@ -68,9 +69,9 @@ Lemma feeds_total : forall f h m l, mu m l < f -> exists h1 m1 b1 es1, feeds f h
 Proof.
   induction f as [|f IH]; intros h m l Hf; [lia|].
   cbn [Model.feeds]. destruct m as [|k lft|].
-  - destruct (one_msg rl l) eqn:E; try (do 4 eexists; reflexivity).
+  - destruct (one_msg pol rl l) eqn:E; try (do 4 eexists; reflexivity).
     + exfalso. eapply one_msg_no_fault; eauto.
-    + destruct (one_msg_got_len _ _ _ _ E) as [[L1 L2] _].
+    + destruct (one_msg_got_len _ _ _ _ _ E) as [[L1 L2] _].
       assert (LS : length (skipn n l) + 4 <= length l) by (rewrite skipn_length; lia).
       unfold mu in Hf.
       destruct (handle h m) as [h' v]. destruct v; try (do 4 eexists; reflexivity).
@@ -125,7 +126,7 @@ Proof.
     rewrite F1.
     destruct (feeds_len _ _ _ _ _ _ _ _ F1) as [LEN1 LEN2]. rewrite app_length in LEN1, LEN2.
     assert (MU1 : mu RIdle (m_buf s ++ got) < S (length (m_buf s) + length got)) by (unfold mu; rewrite app_length; lia).
-    destruct (feeds_refines HS handle rl budget _ _ _ _ _ _ _ _ MU1 F1) as [_ G1].
+    destruct (feeds_refines HS handle rl pol budget _ _ _ _ _ _ _ _ MU1 F1) as [_ G1].
     (* progress on the socket when the state is settled *)
     assert (PROG : good s -> avail <> [] -> length got <> 0).
     { intros G NE. pose proof (good_idle_short s G M) as SH.
@@ -166,11 +167,11 @@ Proof.
         remember (firstn (Nat.min (N.to_nat lft1) (cap budget (S (m_cnt s)))) avail1) as got2.
         remember (skipn (Nat.min (N.to_nat lft1) (cap budget (S (m_cnt s)))) avail1) as avail2.
         assert (LA2 : length avail2 <= length avail1) by (subst avail2; rewrite skipn_length; lia).
-        rewrite (feedx_fuel HS handle rl) by (unfold mu; lia).
-        destruct (feedx_total' HS handle rl h1 (RPay KExt lft1) got2) as (h2 & m2 & b2 & es2 & F2). rewrite F2.
-        pose proof (good_of_feed HS handle rl _ _ _ _ _ _ _ (S (S (m_cnt s))) F2) as G2.
+        rewrite (feedx_fuel HS handle rl pol) by (unfold mu; lia).
+        destruct (feedx_total' HS handle rl pol h1 (RPay KExt lft1) got2) as (h2 & m2 & b2 & es2 & F2). rewrite F2.
+        pose proof (good_of_feed HS handle rl pol _ _ _ _ _ _ _ (S (S (m_cnt s))) F2) as G2.
         assert (LG : (N.of_nat (length got2) <= lft1)%N) by (subst got2; rewrite firstn_length; lia).
-        destruct (pay_slice HS handle rl _ _ _ _ _ _ _ _ LG F2) as [B2 _]. subst b2.
+        destruct (pay_slice HS handle rl pol _ _ _ _ _ _ _ _ LG F2) as [B2 _]. subst b2.
         apply REC; [exact LA2|cbn [length]; lia|intros _; exact G2|].
         intros _. unfold mm. cbn [m_mode m_buf length]. destruct m2; lia.
       * apply REC; [lia|lia|apply GC1|]. intros _. unfold mm. cbn [m_mode m_buf].
@@ -182,10 +183,10 @@ Proof.
     assert (LC : (N.of_nat (length (firstn c (m_buf s))) <= lft)%N) by (rewrite firstn_length; unfold c; lia).
     assert (LC2 : length (firstn c (m_buf s)) = c) by (rewrite firstn_length; unfold c; lia).
     assert (LR : length (skipn c (m_buf s)) = length (m_buf s) - c) by apply skipn_length.
-    rewrite (feedx_fuel HS handle rl) by (unfold mu; lia).
-    destruct (feedx_total' HS handle rl (m_h s) (RPay k lft) (firstn c (m_buf s))) as (h1 & m1 & b1 & es1 & F1). rewrite F1.
-    destruct (pay_slice HS handle rl _ _ _ _ _ _ _ _ LC F1) as [B1 PL]. subst b1.
-    pose proof (good_of_feed HS handle rl _ _ _ _ _ _ _ (m_cnt s) F1) as G1.
+    rewrite (feedx_fuel HS handle rl pol) by (unfold mu; lia).
+    destruct (feedx_total' HS handle rl pol (m_h s) (RPay k lft) (firstn c (m_buf s))) as (h1 & m1 & b1 & es1 & F1). rewrite F1.
+    destruct (pay_slice HS handle rl pol _ _ _ _ _ _ _ _ LC F1) as [B1 PL]. subst b1.
+    pose proof (good_of_feed HS handle rl pol _ _ _ _ _ _ _ (m_cnt s) F1) as G1.
     destruct m1 as [|k1 lft1|].
     + destruct (IH (mk_mst h1 RIdle (skipn c (m_buf s)) (m_cnt s)) avail) as (s' & a' & es & E & LE & _).
       * unfold mm. cbn [m_mode m_buf]. lia.
@@ -195,7 +196,7 @@ Proof.
         (* settled payload state: the buffer is empty and lft > 0, so this branch consumed nothing from the
            buffer and cannot have completed *)
         intros G NE _. exfalso.
-        pose proof (good_pay_pos HS handle rl s k lft G M) as LP.
+        pose proof (good_pay_pos HS handle rl pol s k lft G M) as LP.
         destruct G as [_ GB]. rewrite M in GB. unfold c in *. rewrite GB in *. cbn [length firstn] in *.
         replace (Nat.min (N.to_nat lft) 0) with 0 in F1 by lia. cbn [firstn] in F1.
         rewrite feedx_pay in F1. cbn [length] in F1.
@@ -207,7 +208,7 @@ Proof.
       { destruct G1 as [GS _]. cbn [m_h m_mode m_buf] in GS. rewrite feedx_pay in GS. cbn [length] in GS.
         destruct (N.of_nat 0 <? lft1)%N eqn:E; [apply N.ltb_lt in E; lia|].
         exfalso. destruct (handle h1 (pay_done k1)) as [h' v]. destruct v.
-        - destruct (ProofsB.feedx HS handle rl h' RIdle (skipn (N.to_nat lft1) [])); cbn in GS; inversion GS.
+        - destruct (ProofsB.feedx HS handle rl pol h' RIdle (skipn (N.to_nat lft1) [])); cbn in GS; inversion GS.
         - inversion GS.
         - inversion GS. }
       set (want := Nat.min (N.to_nat lft1) (cap budget (m_cnt s))).
@@ -218,11 +219,11 @@ Proof.
       * do 3 eexists. split; [reflexivity|]. split; [lia|].
         intros _ NE _. exfalso. apply (firstn_nonempty want avail W NE). exact GOT.
       * cbn [length] in FSL.
-        rewrite (feedx_fuel HS handle rl) by (unfold mu; cbn [length]; lia).
-        destruct (feedx_total' HS handle rl h1 (RPay k1 lft1) (g0 :: gs)) as (h2 & m2 & b2 & es2 & F2). rewrite F2.
+        rewrite (feedx_fuel HS handle rl pol) by (unfold mu; cbn [length]; lia).
+        destruct (feedx_total' HS handle rl pol h1 (RPay k1 lft1) (g0 :: gs)) as (h2 & m2 & b2 & es2 & F2). rewrite F2.
         assert (LG : (N.of_nat (length (g0 :: gs)) <= lft1)%N).
         { pose proof (firstn_le_length want avail) as FL. rewrite GOT in FL. unfold want in FL. lia. }
-        destruct (pay_slice HS handle rl _ _ _ _ _ _ _ _ LG F2) as [B2 _]. subst b2.
+        destruct (pay_slice HS handle rl pol _ _ _ _ _ _ _ _ LG F2) as [B2 _]. subst b2.
         destruct m2 as [|k2 lft2|].
         -- destruct (IH (mk_mst h2 RIdle [] (S (m_cnt s))) (skipn want avail)) as (s' & a' & es & E & LE & _).
            ++ unfold mm. cbn [m_mode m_buf length]. lia.
@@ -233,7 +234,7 @@ Proof.
         -- do 3 eexists. split; [reflexivity|]. split; lia.
     + do 3 eexists. split; [reflexivity|]. split; [lia|].
       intros G NE _. exfalso.
-      pose proof (good_pay_pos HS handle rl s k lft G M) as LP.
+      pose proof (good_pay_pos HS handle rl pol s k lft G M) as LP.
       destruct G as [_ GB]. rewrite M in GB. unfold c in *. rewrite GB in *. cbn [length] in *.
       replace (Nat.min (N.to_nat lft) 0) with 0 in F1 by lia. cbn [firstn] in F1.
       rewrite feedx_pay in F1. cbn [length] in F1.
@@ -259,7 +260,7 @@ Proof.
   cbn [Model.drain_meta]. destruct avail as [|a0 av]; [do 2 eexists; reflexivity|].
   destruct (ev_meta_total (evm_fuel HS s (a0 :: av)) s (a0 :: av) (mm_fuel s (a0 :: av)) (good_buf_le s G) (fun _ => G))
     as (s1 & a1 & e1 & E & LE & LT).
-  destruct (ev_meta_refines HS handle rl budget _ _ _ _ _ _ (fun _ => G) E) as [_ G1].
+  destruct (ev_meta_refines HS handle rl pol budget _ _ _ _ _ _ (fun _ => G) E) as [_ G1].
   assert (STEP : m_mode s <> RClosed ->
             exists s' es,
               (if length a1 <? length (a0 :: av) then mapp HS e1 (drain_meta f s1 a1)
@@ -279,7 +280,7 @@ Proof.
   induction segs as [|seg more IH]; intros s G; [do 2 eexists; reflexivity|].
   cbn [Model.run_segs_meta].
   destruct (drain_meta_total (drain_fuel seg) s seg G) as (s1 & e1 & D); [unfold drain_fuel; lia|].
-  rewrite D. destruct (drain_meta_refines HS handle rl budget _ _ _ _ _ _ G D) as [G1 _].
+  rewrite D. destruct (drain_meta_refines HS handle rl pol budget _ _ _ _ _ _ G D) as [G1 _].
   destruct (IH s1 G1) as (s' & es & R). rewrite R. cbn [mapp]. do 2 eexists; reflexivity.
 Qed.
 
@@ -291,11 +292,11 @@ Qed.
 Theorem meta_machine_segmentation_independent : forall (h : HS) (pre : list N) (segs : list (list N)),
   length pre <= bufcap ->
   exists s' es,
-    run_meta HS handle rl budget h pre segs = MRet s' [] es /\
-    decode HS handle rl h (pre ++ concat segs) = PRes (m_h s') (m_mode s') (m_buf s') es.
+    run_meta HS handle rl pol budget h pre segs = MRet s' [] es /\
+    decode HS handle rl pol h (pre ++ concat segs) = PRes (m_h s') (m_mode s') (m_buf s') es.
 Proof.
   intros h pre segs L.
-  assert (EX : exists s' es, run_meta HS handle rl budget h pre segs = MRet s' [] es).
+  assert (EX : exists s' es, run_meta HS handle rl pol budget h pre segs = MRet s' [] es).
   { unfold run_meta. destruct pre as [|p0 ps] eqn:P.
     - assert (G0 : good (mk_mst h RIdle [] 0)) by (split; cbn; [rewrite feedx_idle|]; reflexivity).
       destruct (run_segs_meta_total segs _ G0) as (s' & es & R). rewrite R. cbn [mapp app]. do 2 eexists; reflexivity.
@@ -304,7 +305,7 @@ Proof.
       destruct (ev_meta_total (evm_fuel HS (mk_mst h RIdle pre 0) []) (mk_mst h RIdle pre 0) [] (mm_fuel _ _) L GC)
         as (s0 & a0 & es0 & E & LE & _).
       rewrite E. destruct a0; [|cbn in LE; lia].
-      destruct (ev_meta_refines HS handle rl budget _ _ _ _ _ _ GC E) as [_ G0].
+      destruct (ev_meta_refines HS handle rl pol budget _ _ _ _ _ _ GC E) as [_ G0].
       destruct (run_segs_meta_total segs _ G0) as (s' & es & R). rewrite R. cbn [mapp]. do 2 eexists; reflexivity. }
   destruct EX as (s' & es & RUN). exists s', es. split; [exact RUN|].
   eapply meta_machine_refines_decode; eauto.
